@@ -11,6 +11,7 @@ from torch import Tensor
 from linear_operator.operators._linear_operator import IndexType, LinearOperator
 
 from linear_operator.utils.broadcasting import _matmul_broadcast_shape
+from linear_operator.utils.generic import _to_helper
 from linear_operator.utils.getitem import _compute_getitem_size
 from linear_operator.utils.memoize import cached
 
@@ -27,11 +28,14 @@ class ZeroLinearOperator(LinearOperator):
     def __init__(
         self, *sizes: Tuple[int, ...], dtype: Optional[torch.dtype] = None, device: Optional[torch.device] = None
     ):
-        super(ZeroLinearOperator, self).__init__(*sizes)
+        dtype = dtype or torch.get_default_dtype()
+        device = device or torch.device("cpu")
+        # dtype and device are constructor arguments: copies and rebuilds of the operator must keep them
+        super(ZeroLinearOperator, self).__init__(*sizes, dtype=dtype, device=device)
         self.sizes = list(sizes)
 
-        self._dtype = dtype or torch.get_default_dtype()
-        self._device = device or torch.device("cpu")
+        self._dtype = dtype
+        self._device = device
 
     @property
     def dtype(self) -> Optional[torch.dtype]:
@@ -203,6 +207,17 @@ class ZeroLinearOperator(LinearOperator):
     @cached
     def to_dense(self: Float[LinearOperator, "*batch M N"]) -> Float[Tensor, "*batch M N"]:
         return torch.zeros(*self.sizes, dtype=self._dtype, device=self._device)
+
+    def to(self: Float[LinearOperator, "*batch M N"], *args, **kwargs) -> Float[LinearOperator, "*batch M N"]:
+        device, dtype = _to_helper(*args, **kwargs)
+        return self.__class__(
+            *self.sizes,
+            dtype=dtype if dtype is not None else self._dtype,
+            device=device if device is not None else self._device,
+        )
+
+    def type(self: LinearOperator, dtype: torch.dtype) -> LinearOperator:
+        return self.__class__(*self.sizes, dtype=dtype, device=self._device)
 
     def transpose(self, dim1: int, dim2: int) -> LinearOperator:
         sizes = self.sizes.copy()
